@@ -42,7 +42,7 @@ type Tape struct {
 var framings = []string{"init-krb5", "init-ms", "init-ntlm-first", "init-empty", "init-foreign", "init-nomechtoken", "resp", "resp-nomech", "resp-foreign", "resp-notoken-completed", "resp-notoken-incomplete", "raw"}
 var etypes = []int{18, 17, 19, 20, 16, 23}
 var defects = []string{"wrong-key", "wrong-kvno-label", "wrong-realm-label", "wrong-sname-label", "ticket-usage", "auth-usage-7", "auth-wrong-key", "flag-invalid",
-	"tkt-flip", "tkt-trunc", "auth-flip", "auth-trunc", "cname-mismatch", "crealm-mismatch", "t-end", "t-start", "t-ctime-old", "t-ctime-future"}
+	"tkt-flip", "tkt-trunc", "auth-flip", "auth-trunc", "cname-mismatch", "cname-extra-component", "cname-fewer-components", "cname-empty", "crealm-mismatch", "t-end", "t-start", "t-ctime-old", "t-ctime-future"}
 
 func Meta() core.Meta {
 	nsweep := len(framings)*3*2 + len(defects)*4 + 40
@@ -109,6 +109,13 @@ func Gen(caseID, tier string) (json.RawMessage, error) {
 				rq.Mangle = ""
 			}
 		}
+		// who the client is varies across the sweep: another realm's client, a two-component name
+		switch idx % 4 {
+		case 1:
+			rq.Spec.CRealm = "OTHER.TEST"
+		case 2:
+			rq.Spec.Client = "carol/admin"
+		}
 		tp.Reqs = []Req{rq}
 		return core.MustJSON(tp), nil
 	}
@@ -152,6 +159,7 @@ func Gen(caseID, tier string) (json.RawMessage, error) {
 			}
 			rq.Mech = r.Pick("apreq", "apreq", "apreq", "apreq", "aprep", "krberror")
 			rq.Spec.Client = r.Pick("alice", "bob", "carol/admin")
+			rq.Spec.CRealm = r.Pick("", "", "OTHER.TEST") // "" = the service's realm
 			rq.Spec.Addrs = r.Pick("", "", "match", "other", "both")
 			rq.Spec.StartTime = !r.Chance(1, 4)
 			rq.Spec.Subkey = r.Chance(1, 3)
